@@ -307,9 +307,10 @@ func (s *Sched) taskExit(t *Task) {
 	if r := recover(); r != nil {
 		buf := make([]byte, 4096)
 		buf = buf[:runtime.Stack(buf, false)]
+		msg := fmt.Sprintf("task %s: panic: %v\n%s", t.ID, r, buf)
 		raceDisable()
 		s.mu.Lock()
-		s.res.Panics = append(s.res.Panics, fmt.Sprintf("task %s: panic: %v\n%s", t.ID, r, buf))
+		s.res.Panics = append(s.res.Panics, msg)
 		s.mu.Unlock()
 		raceEnable()
 	}
@@ -510,11 +511,15 @@ func Event(format string, args ...any) {
 		return
 	}
 	msg := fmt.Sprintf(format, args...)
+	line := ""
+	if s.cfg.KeepTrace {
+		line = fmt.Sprintf("t=%v] %s", time.Since(s.start), msg)
+	}
 	raceDisable()
 	s.mu.Lock()
 	s.digest = fnvStr(s.digest, msg)
 	if s.cfg.KeepTrace {
-		s.res.Events = append(s.res.Events, fmt.Sprintf("[%d t=%v] %s", s.step, time.Since(s.start), msg))
+		s.res.Events = append(s.res.Events, "["+strconv.Itoa(s.step)+" "+line)
 	}
 	s.mu.Unlock()
 	raceEnable()
@@ -768,9 +773,10 @@ func (s *Sched) runMain(main func()) {
 		if r := recover(); r != nil {
 			buf := make([]byte, 8192)
 			buf = buf[:runtime.Stack(buf, false)]
+			msg := fmt.Sprintf("%v\n%s", r, buf)
 			raceDisable()
 			s.mu.Lock()
-			s.res.MainPanic = fmt.Sprintf("%v\n%s", r, buf)
+			s.res.MainPanic = msg
 			s.mu.Unlock()
 			raceEnable()
 		}
